@@ -4,7 +4,7 @@ traces (SMACK skips, early/missing/repeated CCS, bad/plaintext Finished, data be
 Tape layout = order of draws in prop() of props/C06/seq12.cc (random target):
   victim_server, sv, cauth, ems-index, resumed(0 = resumed!), seed hi, seed lo, nsel (1..5 one op, 6..9 two ops), ops..., trailer (0,1 = one record), vary (0)"""
 import os
-O_DEL, O_DUP, O_SWAP, O_RETAG, O_SUBST, O_INJECT, O_FLIPFIN, O_PROT, O_MODE, O_CCSBODY = range(10)
+O_DEL, O_DUP, O_SWAP, O_RETAG, O_SUBST, O_INJECT, O_FLIPFIN, O_PROT, O_MODE, O_CCSBODY, O_SECRET = range(11)
 T = dict(HR=0, CH=1, SH=2, NST=3, CERT=4, CERT0=5, SKE=6, CR=7, SHD=8, CV=9, CKE=10, FIN=11, CCS=12, APP=13, WARN=14, UNK=15)
 RSA_GCM, ECDHE_GCM, RSA_CBC256, ECDHE_CBC256, RSA_CBC_11, ECDHE_CBC_11 = range(6)
 
@@ -13,8 +13,12 @@ def op(kind, *args):
     return [kind] + list(args)
 
 
-def tape(server, sv, cauth, ops, resumed=False, ems=0):
-    b = [1 if server else 0, sv, 1 if cauth else 0, ems, 0 if resumed else 1, 0, 7, 1 if len(ops) == 1 else 6 if len(ops) == 2 else 0]
+def tape(server, sv, cauth, ops, resumed=False, ems=0, ticket=None):
+    """ticket (client victim only): 'accept' / 'decline' = the client's session holds an id AND a ticket and the server echoes the id / answers with a fresh id
+    (5th byte 4 selects the mode, the low bit of the seed accepts)"""
+    kind = 4 if ticket else (0 if resumed else 1)
+    seed_lo = 7 if ticket != 'decline' else 6
+    b = [1 if server else 0, sv, 1 if cauth else 0, ems, kind, 0, seed_lo, 1 if len(ops) == 1 else 6 if len(ops) == 2 else 0]
     for o in ops:
         b += o
     b += [0, 1, 0]
@@ -62,6 +66,18 @@ CASES = {
     'cli-certificate-request-before-ske': tape(False, ECDHE_GCM, True, [op(O_SWAP, 2)]),
     'cli-client-hello-after-handshake': tape(False, ECDHE_GCM, True, [op(O_INJECT, 7, T['CH'])]),
     'cli-client-hello-after-handshake-rsa': tape(False, RSA_GCM, False, [op(O_INJECT, 5, T['CH'])]),
+    # a session that holds an id and a ticket (first handshake answered with both); wrong-session-secret: abbreviated handshake keyed with a foreign master secret
+    'cli-id+ticket-accepted-legal': tape(False, RSA_GCM, False, [], ticket='accept'),
+    'cli-id+ticket-declined-legal': tape(False, ECDHE_GCM, False, [], ticket='decline'),
+    'cli-id+ticket-declined-zero-secret-resumption': tape(False, RSA_GCM, False, [op(O_SECRET, 0)], ticket='decline'),
+    'cli-id+ticket-declined-zero-secret-resumption-ecdhe': tape(False, ECDHE_GCM, False, [op(O_SECRET, 0)], ticket='decline'),
+    'cli-id+ticket-declined-zero-secret-resumption-tls11': tape(False, RSA_CBC_11, False, [op(O_SECRET, 0)], ticket='decline'),
+    'cli-id+ticket-declined-random-secret-resumption': tape(False, RSA_GCM, False, [op(O_SECRET, 1)], ticket='decline'),
+    'cli-id+ticket-accepted-zero-secret': tape(False, RSA_GCM, False, [op(O_SECRET, 0)], ticket='accept'),
+    'cli-resumed-zero-secret': tape(False, ECDHE_GCM, False, [op(O_SECRET, 0)], resumed=True),
+    'cli-full-zero-secret-resumption': tape(False, RSA_GCM, False, [op(O_SECRET, 0)]),
+    'srv-resumed-zero-secret': tape(True, RSA_GCM, False, [op(O_SECRET, 0)], resumed=True),
+    'srv-resumed-random-secret': tape(True, ECDHE_CBC256, False, [op(O_SECRET, 1)], resumed=True),
     'cli-resumed-abbreviated-when-full-expected': tape(False, RSA_GCM, False, [op(O_MODE, 2)]),
 }
 
